@@ -1,3 +1,4 @@
+import LP.Props.GenTables
 import LP.Props.C12
 import LP.Props.C12Exact
 import LP.Props.C12Compl
@@ -17,3 +18,8 @@ import LP.Props.C12Compl
 #print axioms LP.Eval.C12_feasible_exact_zero
 #print axioms LP.Compl.go_mem
 #print axioms LP.Compl.C12_complement_exact
+#print axioms LP.Gen.enum_order
+#print axioms LP.Gen.negate_eq
+#print axioms LP.Gen.consistent_eq
+#print axioms LP.Gen.zpValid_eq
+#print axioms LP.Gen.consistentInterval_eq
